@@ -163,7 +163,7 @@ def rule_record_coherence(eng, rep, A):
                 problems.append(("nsamples", "sample count `%s` is not the number of samples of this evaluation (%s)" % (ekey(narg), names[2])))
         # evaluation number: a read of the NX counter with no other evaluation in between
         if earg is not None:
-            k = vfg.key_of(earg)
+            k = vfg.key_of(c.inner_arg("eval_num") if hasattr(c, "inner_arg") else earg)      # (through a helper: the read of the counter sits in the helper)
             is_nx = k in nxw.plain or any(s in nxw.plain for (s, kind, info) in vfg.preds.get(k, []) if kind == "copy")
             if not is_nx:
                 problems.append(("eval_num", "evaluation number `%s` is not a read of the point counter" % ekey(earg)))
@@ -201,6 +201,10 @@ def _non_eval_store(eng, rep, rule, c, site):
     fwd = [p for p, a in args.items() if a is not None and isinstance(a, ast.Name) and a.id in c.fi.all_params]
     if fwd and all(p in fwd or (p == "eval_num" and ekey(a).endswith(".nx")) for p, a in args.items() if a is not None):
         rep.ok(rule, site, "forwards its own parameters (checked at the callers)", nontrivial=False)
+        return
+    from .records import forwards_own_parameters, wrapper_must_consume
+    if not hasattr(c, "inner") and forwards_own_parameters(c) and wrapper_must_consume(eng, c.fi, c):
+        rep.ok(rule, site, "a helper that stores (expressions over) its own parameters: every call of %s is checked as a store at the call site" % c.fi.qualname, nontrivial=False)
         return
     # kopt record: xopt(), ropt(), nsamples[kopt], eval_num[kopt]
     exp = {"x": "xopt", "rvec": "ropt", "nsamples": "nsamples", "eval_num": "eval_num"}
